@@ -85,6 +85,7 @@ def current_defaults():
 def run_history(ops, texts):
     import colorful
     saved = dict(P.get_default_config())
+    saved_obj = P._default_config
     events = []
     try:
         for op in ops:
@@ -146,7 +147,7 @@ def run_history(ops, texts):
             events.append({'op': 'call', 'entry': entry, 'args': args, 'end': end, 'text': text, 'tail': tail,
                            'got': current_defaults()})
     finally:
-        P.set_default_config(**{k: v for k, v in saved.items() if k != 'indent'})
+        P._default_config = dict(saved)
     return events
 
 
